@@ -243,9 +243,17 @@ func setDesc(s *asv1.StatefulSet) string {
 	if st.CollisionCount != nil {
 		cc = *st.CollisionCount
 	}
+	// the controller only copies generation into the status and tests generation > observedGeneration
+	delta := s.Generation - st.ObservedGeneration
+	if delta > 1 {
+		delta = 1
+	}
+	if delta < -1 {
+		delta = -1
+	}
 	return fmt.Sprintf("set %s uid=%s A[%s] L[%s] term=%v gen-obs=%d spec=%s st=%d/%d/%d/%d cur=%s upd=%s cc=%d",
 		s.Name, s.UID, mapDesc(s.Annotations), mapDesc(s.Labels), s.DeletionTimestamp != nil,
-		s.Generation-st.ObservedGeneration, spec, st.Replicas, st.ReadyReplicas, st.CurrentReplicas, st.UpdatedReplicas,
+		delta, spec, st.Replicas, st.ReadyReplicas, st.CurrentReplicas, st.UpdatedReplicas,
 		st.CurrentRevision, st.UpdateRevision, cc)
 }
 
